@@ -5,6 +5,9 @@ from mc.lib import classify_spaces as cs
 ID = 'C03'
 LEVEL = 'model_checking'
 WANT = ('C03',)
+# fewer non-trivial cases than this share of all cases means that the
+# exploration has become vacuous (reported as INTERNAL-ERROR, never as a pass)
+MIN_NONTRIVIAL_FRACTION = 0.08
 RULE = (
     'Every record over rain in {0, =s, >s} x increment in {fall, =j*dt, '
     '>j*dt} x gap masks up to the stated number of samples, on (dt, s, j) '
